@@ -443,12 +443,12 @@ def run(c):
 
     # ------------------------------------------------------------------ stream M4: locate
     loc_fail = 0; loc_n = 0
-    for iloc in boxed('loc', range(7 if quick else 60), 4):
+    for iloc in boxed('loc', range(6 if quick else 60), 3):
         shape = [R['loc'].choice([1, 2, 3]) for _ in range(R['loc'].choice([1, 2]))]
         npts = R['loc'].choice([1, 2, 3, 5])
         mode = R['loc'].choice(['inside', 'inside', 'missing-raise', 'missing-skip'])
-        if iloc < 4:      # corpus: many points (every worker gets some), one case per mode
-            shape = [2, 2]; npts = 6; mode = ['inside', 'missing-skip', 'missing-raise', 'missing-raise'][iloc]
+        if iloc < 3:      # corpus: many points (every worker gets some), one case per mode
+            shape = [2, 2]; npts = 6; mode = ['inside', 'missing-skip', 'missing-raise'][iloc]
         topo, geom = mesh.rectilinear([numpy.arange(k + 1) * 1. for k in shape])
         # a non-affine geometry, so that StructuredTopology._locate does not take its affine shortcut but the generic Newton search
         # of Topology._locate (every point's computation is independent of the process that performs it: results are bit-identical)
@@ -457,9 +457,9 @@ def run(c):
             cand = topo.sample('uniform', 3).eval(g)
         pts = numpy.array([cand[R['loc'].randrange(len(cand))] for _ in range(npts)])
         if mode != 'inside':
-            # corpus cases 2,3: only the very first point is missing, so that it is (almost surely) claimed by a child, which the parent
+            # corpus case 2: only the very first point is missing, so that it is (almost surely) claimed by a child, which the parent
             # is still busy forking the others: the outcome must nevertheless be the serial one (LocateError naming that point)
-            for r_ in ([0] if iloc in (2, 3) else R['loc'].sample(range(npts), R['loc'].randint(1, min(2, npts)))):
+            for r_ in ([0] if iloc == 2 else R['loc'].sample(range(npts), R['loc'].randint(1, min(2, npts)))):
                 pts[r_, 0] = 100. + r_
         def locate():
             smp = topo.locate(g, pts, tol=1e-9, skip_missing=(mode == 'missing-skip'))
@@ -471,7 +471,7 @@ def run(c):
                 except Exception as e:
                     return ('exception', type(e).__name__, str(e)[:200])
         ref = outcome(1)
-        nprocs = R['loc'].choice([2, 3, 4, 8]) if iloc >= 4 else [4, 3, 8, 3][iloc]
+        nprocs = R['loc'].choice([2, 3, 4, 8]) if iloc >= 3 else [4, 3, 8][iloc]
         got = outcome(nprocs)
         loc_n += 1; c.case(('loc', tuple(shape), pts.tobytes(), mode, nprocs), nontrivial=npts >= 2); c.count('locate:' + mode)
         if got != ref:
@@ -505,16 +505,35 @@ def run(c):
     for s, tag in list(par_scripts.items())[:12 if quick else 80]:
         for mut in ('drop-with', 'unshare'):
             if mut == 'drop-with':
-                lines = s.split('\n'); idx = [k for k, l in enumerate(lines) if re.match(r'\s+with lock\d+:', l) and k > s[:s.index('parallel.ctxrange')].count('\n')
-                                              and k + 1 < len(lines) and ('numpy.add' in lines[k + 1]) and 'slice(' not in lines[k + 1]]
+                import ast as _ast
+                lines = s.split('\n'); idx = []
+                for node in _ast.walk(_ast.parse(s)):      # `with lock<k>:` statements inside a parallel loop that guard a whole-array accumulation
+                    if isinstance(node, _ast.With) and isinstance(node.items[0].context_expr, _ast.Call) and X.dotted(node.items[0].context_expr.func) == 'parallel.ctxrange':
+                        for sub in _ast.walk(node):
+                            if isinstance(sub, _ast.With) and isinstance(sub.items[0].context_expr, _ast.Name) and len(sub.body) == 1 \
+                                    and isinstance(sub.body[0], _ast.Expr) and _ast.unparse(sub.body[0]).startswith('numpy.add') and 'slice(' not in _ast.unparse(sub.body[0]):
+                                idx.append(sub.lineno - 1)
+                idx = [k for k in idx if re.match(r'\s+with lock\d+:\s*$', lines[k])]
                 if not idx: continue
-                k = R['x'].choice(idx)
+                k = R['x'].choice(sorted(set(idx)))
                 ind = len(lines[k]) - len(lines[k].lstrip())
                 lines[k] = ' ' * ind + 'if True:'
                 s2 = '\n'.join(lines)
             else:
-                if 'parallel.shempty' not in s: continue
-                s2 = s.replace('parallel.shempty', 'numpy.empty', 1)
+                import ast as _ast
+                inloop = []     # text of the mutating statements inside parallel loops
+                for node in _ast.walk(_ast.parse(s)):
+                    if isinstance(node, _ast.With) and isinstance(node.items[0].context_expr, _ast.Call) and X.dotted(node.items[0].context_expr.func) == 'parallel.ctxrange':
+                        inloop += [_ast.unparse(sub) for sub in _ast.walk(node) if isinstance(sub, _ast.Expr) and isinstance(sub.value, _ast.Call)]
+                lines = s.split('\n'); cand = []
+                for k, l in enumerate(lines):
+                    m_ = re.match(r'\s+(v\d+) = parallel\.shempty\(', l)
+                    if m_ and any(re.search(r'\b%s\b' % m_.group(1), t) and (t.startswith('numpy.add') or t.startswith('numpy.copyto') or '.fill(' in t) for t in inloop):
+                        cand.append(k)
+                if not cand: continue
+                k = R['x'].choice(cand)
+                lines[k] = lines[k].replace('parallel.shempty', 'numpy.empty', 1)
+                s2 = '\n'.join(lines)
             try:
                 toks, _ = X.describe(s2)
             except Exception:
@@ -804,7 +823,7 @@ def run(c):
                         os.kill(os.getpid(), signal.SIGKILL)
                     mine[0] += 1
                 else:
-                    t_end = time.time() + 1.0          # keep out of the way until the fault has fired
+                    t_end = time.time() + 2.0          # keep out of the way until the fault has fired
                     while not fired.value and time.time() < t_end: time.sleep(0.002)
             HOOK[0] = hook
             with quiet(), parallel.maxprocs(nprocs):
